@@ -25,10 +25,14 @@ U == {
   E("src/sub/b.rs.tmp", "symfile", "tmp", TRUE, 1),
   E("src/a.rs~", "file", "rs~", TRUE, 0),
   E("src/sp ace.rs", "file", "rs", TRUE, 0),
+  E("src/x.inc", "file", "inc", TRUE, 0),
+  E("src/hardlinked.rs", "file", "rs", TRUE, 0),      \* has a second hard link outside the source directory
   E("outside/o.rs", "file", "rs", FALSE, 0),
   E("top.rs", "file", "rs", FALSE, 0),
   E("srcx/q.rs", "file", "rs", FALSE, 0) }
-ExtListsAll == {<<"default">>, <<"rs">>, <<"rs", "txt">>, <<"RS">>, <<"bak">>}
+ExtListsAll == {<<"default">>, <<"rs">>, <<"rs", "txt">>, <<"RS">>, <<"bak">>, <<"rs", "inc">>, <<"txt", "rs", "inc">>}
+TmpBoth == {"same", "otherfs"}
+TmpSame == {"same"}
 SourceDirsAll == {"rel", "dotrel", "abs", "updown", "hidden"}
 ExtListsFew == {<<"default">>, <<"rs", "txt">>}
 SourceDirsFew == {"rel", "updown"}
